@@ -344,6 +344,10 @@ def _sub_pattern(v):
         if isinstance(inner, Sym) and inner.op == 'sub':
             M, i1 = inner.args
             i1, i2 = _strip_ellipsis(i1), _strip_ellipsis(i2)
+            # leading `:` over the field axes (per-element / per-Gauss-point arrays)
+            while isinstance(i1, tuple) and isinstance(i2, tuple) and len(i1) > 2 and len(i2) > 2 \
+                    and i1[0] == slice(None, None, None) and i2[0] == slice(None, None, None):
+                i1, i2 = i1[1:], i2[1:]
             if (isinstance(i1, tuple) and len(i1) == 2 and isinstance(i1[0], list) and i1[1] == slice(None, None, None)
                     and isinstance(i2, tuple) and len(i2) == 2 and i2[0] == slice(None, None, None) and i2[1] == i1[0]):
                 return M, [int(k) for k in i1[0]]
@@ -422,8 +426,11 @@ def read_aniso(mod):
     res = OrderedDict()
     for dim in (2, 3):
         n = N_OF_DIM[dim]
-        for voigt in (True, False):
-            Cin = Arr([[('v', "c%d%d" % (i + 1, j + 1)) for j in range(n)] for i in range(n)])
+        for voigt, rank in [(v_, r_) for v_ in (True, False) for r_ in (2, 3, 4)]:
+            # rank 2: one (n,n) matrix; rank 3: per-element field (Ne,n,n); rank 4: per-Gauss-point field
+            # (Ne,nPg,n,n) — the fields are interpreted with ONE entry (Ne = nPg = 1) carrying the same symbols
+            C2 = [[('v', "c%d%d" % (i + 1, j + 1)) for j in range(n)] for i in range(n)]
+            Cin = Arr(C2 if rank == 2 else [C2] if rank == 3 else [[C2]])
             axes = {}
 
             def selfattr(name, raw, dim=dim, axes=axes):
@@ -434,9 +441,9 @@ def read_aniso(mod):
                         axes[name] = Arr([('v', "%s_%d" % (name.split("__")[-1], i + 1)) for i in range(3)])
                     return axes[name]
                 return Opaque("self.%s" % name)
-            it = S.Interp("Anisotropic._Behavior[dim=%d,voigt=%s]" % (dim, voigt), selfobj=selfattr, mangled_cls="Anisotropic")
+            it = S.Interp("Anisotropic._Behavior[dim=%d,voigt=%s,C.ndim=%d]" % (dim, voigt, rank), selfobj=selfattr, mangled_cls="Anisotropic")
             it.calls["KelvinMandel_Matrix"] = lambda args, kw, Cin=Cin: (
-                Arr([[('v', "K" + x[1]) if S.is_tree(x) and x[0] == 'v' else None for x in row] for row in args[1].data])
+                Arr(S.arr_map(lambda x: ('v', "K" + x[1]) if S.is_tree(x) and x[0] == 'v' else None, args[1].data))
                 if isinstance(args[1], Arr) and args[1].data == Cin.data else Opaque("KelvinMandel_Matrix of something else"))
             it.calls["Get_Pmat"] = lambda args, kw: Sym('pmat', tuple(args), (6, 6))
             it.calls["Apply_Pmat"] = lambda args, kw: Sym('apply', tuple(args) + (kw.get("toGlobal", True),), (6, 6))
@@ -450,8 +457,11 @@ def read_aniso(mod):
             if not (isinstance(r, Sym) and r.op == 'apply' and isinstance(r.args[0], Sym) and r.args[0].op == 'pmat' and r.args[-1] is True):
                 raise TranslateError("%s: result is not Apply_Pmat(Get_Pmat(axis1, axis2), X)" % where)
             X = r.args[1]
-            if not (isinstance(X, Arr) and X.shape == (6, 6)):
-                raise TranslateError("%s: the rotated matrix is not 6x6" % where)
+            lead = (1,) * (rank - 2)
+            if not (isinstance(X, Arr) and X.shape == lead + (6, 6)):
+                raise TranslateError("%s: the rotated matrix is not of shape %s" % (where, lead + (6, 6)))
+            for _ in lead:
+                X = Arr(X.data[0])
             # describe X: each entry is 0, c_ij (raw input) or Kc_ij (Kelvin-Mandel-scaled input)
             desc = []
             for row in X.data:
@@ -468,7 +478,11 @@ def read_aniso(mod):
                 desc.append(drow)
             if (dim == 2) != (idx is not None):
                 raise TranslateError("%s: final plane extraction %r" % (where, idx))
-            res[(dim, voigt)] = {"inner": desc, "idx": idx, "line": fn.lineno}
+            if rank == 2:
+                res[(dim, voigt)] = {"inner": desc, "idx": idx, "line": fn.lineno}
+            elif desc != res[(dim, voigt)]["inner"] or idx != res[(dim, voigt)]["idx"]:
+                raise TranslateError("%s: the %s branch does not build the same law as the single-matrix branch"
+                                     % (where, "per-element" if rank == 3 else "per-Gauss-point"))
     return res
 
 
